@@ -442,6 +442,13 @@ func (fc *fnCtx) pureApp1(ce *callee, con *Contract, args []Val, resT types.Type
 }
 
 func (fc *fnCtx) pureFacts(ce *callee, con *Contract, args []Val, res []Val) {
+	if len(con.Axioms) > 0 && !fc.pureDone["axioms:"+ce.name] {
+		fc.pureDone["axioms:"+ce.name] = true
+		aenv := &Env{fc: fc, st: fc.entry, old: fc.entry, pkg: ce.pkg, vars: map[string]Val{}, pureCtx: true}
+		for _, ax := range con.Axioms {
+			fc.sc.Axiom(fc.evalClause(aenv, ax), Sym("f!"+ce.name))
+		}
+	}
 	key := ce.name
 	for _, a := range args {
 		key += "\x00" + a.T
